@@ -18,6 +18,6 @@ func init() {
 		ruleMArgs("M-args"), ruleMOnce("M-once"), ruleMShallow("M-shallow"), ruleRootCause("T-rootcause"),
 		ruleTypestate("E-TS"), ruleOnStack("G-onstack"), ruleCallback("M-cb"), ruleRecover("G-recover"),
 		ruleUserErr("T-usererr"), ruleHomeView("HOME-VIEW"),
-		ruleStaging("E-stage"), ruleAtomProvide("E-ATOM"), ruleAtomDecorate("E-ATOM"), ruleWOwners("W-owners"),
+		ruleStaging("E-stage"), ruleDecFirst("M-dec-first"), ruleSoft("G-soft"), ruleOptZero("G-optzero"), ruleProvenance("T-provenance"), ruleSameInstance("T-same-instance"), ruleNoEarlyExit("L-no-early-exit"), ruleMissingPredicate("G-missing"), ruleAtomProvide("E-ATOM"), ruleAtomDecorate("E-ATOM"), ruleWOwners("W-owners"),
 	}})
 }
